@@ -323,7 +323,7 @@ func (p *Prog) classifyErr(c ssa.CallInstruction) (errClass, string) {
 			if isNilTestUse(ref, v) {
 				continue
 			}
-			if !knownNonNil(ref.Block(), v) {
+			if !knownNonNil(ref.Block(), v) && !nilSafeArgument(ref, v, 0) {
 				return errDropped, fmt.Sprintf("error discarded and the value is used at %s without a nil test", p.instrPos(ref))
 			}
 		}
@@ -516,4 +516,41 @@ func accessorBody(v ssa.Value, depth int) *Poly {
 		}
 	}
 	return out
+}
+
+// nilSafeArgument: the use of v is handing it to a module function that itself touches the
+// parameter only behind a nil test (the test moved into a helper together with the use).
+func nilSafeArgument(ref ssa.Instruction, v ssa.Value, depth int) bool {
+	c, ok := ref.(ssa.CallInstruction)
+	if !ok || depth > 2 || gp == nil {
+		return false
+	}
+	g := rawStaticCallee(c)
+	if g == nil || !gp.inMod(g) || len(g.Blocks) == 0 {
+		return false
+	}
+	args := c.Common().Args
+	if len(args) != len(g.Params) {
+		return false
+	}
+	seen := false
+	for i, a := range args {
+		if a != v {
+			continue
+		}
+		seen = true
+		prm := g.Params[i]
+		if prm.Referrers() == nil {
+			continue
+		}
+		for _, r2 := range *prm.Referrers() {
+			if _, isDbg := r2.(*ssa.DebugRef); isDbg || isNilTestUse(r2, prm) {
+				continue
+			}
+			if !knownNonNil(r2.Block(), prm) && !nilSafeArgument(r2, prm, depth+1) {
+				return false
+			}
+		}
+	}
+	return seen
 }
